@@ -194,7 +194,38 @@ pub fn c07() -> Vec<(&'static str, crate::real::Cfg, Vec<Op>)> {
                 Op::Crash,
             ],
         ),
+        // zone `recreate` (directory): the removal of a directory is flushed
+        // without the removal of its former entries, which come back inside a
+        // new directory of the same name
+        (
+            "resurrected-children",
+            Cfg::default(),
+            vec![
+                mkdir("/d"),
+                w("/d/a", 1, 0),
+                sync_dir("/d"),
+                Op::RemoveDirAll { p: "/d".into(), fe: Fe::Std },
+                sync_dir("/"),
+                mkdir("/d"),
+                sync_dir("/"),
+                Op::Crash,
+            ],
+        ),
         // conforming regression scenarios
+        (
+            "cross-dir-rename-both-dirs-synced",
+            Cfg::default(),
+            vec![
+                w("/a", 4, 0),
+                sync_all("/a"),
+                sync_dir("/"),
+                mkdir("/d"),
+                mv("/a", "/d/a"),
+                sync_dir("/"),
+                sync_dir("/d"),
+                Op::Crash,
+            ],
+        ),
         (
             "atomic-replace-pattern",
             Cfg::default(),
